@@ -185,6 +185,28 @@ def sel_coincident(sc, g, animal):
     return False
 
 
+MAX_EDGE_RATIO = F(1, 4)     # PAFScorer default max_edge_length_ratio
+
+
+def max_edge_length(sc, g):
+    """score_paf_lines_batch: ratio * max(pafs.shape[-1], [-2], [-3]) * stride for the PAF tensor of THIS scene."""
+    return MAX_EDGE_RATIO * max(g["hp"], g["wp"], 2 * len(sc["edges"])) * sc["ps"]
+
+
+def edge_len2(g, animal, u, v):
+    a, b = to_input(g, animal[u]), to_input(g, animal[v])
+    return (a[0] - b[0]) ** 2 + (a[1] - b[1]) ** 2
+
+
+def sel_long_edge(sc, g, animal):
+    """F24: a visible edge longer than max_edge_length / min_line_scores (network-input px; for the
+    defaults 1/4, 1/4: longer than the largest dimension of the PAF tensor x stride, i.e. the larger
+    image side): its distance penalty alone keeps the score below min_line_scores."""
+    M = max_edge_length(sc, g)
+    return any(visible(animal[u]) and visible(animal[v]) and M * M < MIN_LINE * MIN_LINE * edge_len2(g, animal, u, v)
+               for u, v in sc["edges"])
+
+
 def general_position(sc, g, animal, guard=TIE_GUARD):
     """No keypoint on (or within `guard` of) a cell boundary; parts joined by an
     edge >= MIN_PART_CELLS cells apart; all keypoints inside the image."""
@@ -236,8 +258,9 @@ def gen_config(rng):
     return sc
 
 
-def gen_pose(rng, edges, n_nodes, cs, lmin_cells, lmax_cells):
-    """Node positions (floats, network-input px) of one animal, root at the origin."""
+def gen_pose(rng, edges, n_nodes, cs, lmin_cells, lmax_cells, long=None):
+    """Node positions (floats, network-input px) of one animal, root at the origin.
+    long = (edge index, lo px, hi px): that edge gets a length in [lo, hi] px instead."""
     pos = {}
     children = {}
     dsts = {v for _, v in edges}
@@ -249,20 +272,27 @@ def gen_pose(rng, edges, n_nodes, cs, lmin_cells, lmax_cells):
     while stack:
         u = stack.pop()
         for v in children.get(u, []):
-            ell = rng.uniform(lmin_cells, lmax_cells) * cs
+            if long is not None and edges[long[0]] == (u, v):
+                ell = rng.uniform(long[1], long[2])
+            else:
+                ell = rng.uniform(lmin_cells, lmax_cells) * cs
             th = rng.uniform(0, 2 * math.pi)
             pos[v] = (pos[u][0] + ell * math.cos(th), pos[u][1] + ell * math.sin(th))
             stack.append(v)
     return [pos[j] for j in range(n_nodes)]
 
 
-def gen_scene(rng, thorough=False, crowded=False):
+def gen_scene(rng, thorough=False, crowded=False, fixed=None, skeleton=None, long_edges=False, attempts=None):
     """One in-domain scene (all animals in general position, on a jittered lattice
     with spacing >= 3x the largest animal extent, outside the border band).
     crowded=True: 5-6 nodes, 4-5 animals, few missing parts, so that a frame has MORE THAN 16
-    detected peaks (torch.argsort / unique orderings beyond the small-input regime)."""
-    for _attempt in range(400 if crowded else 200):
-        sc = gen_config(rng)
+    detected peaks (torch.argsort / unique orderings beyond the small-input regime).
+    fixed / skeleton: the configuration (sizes, strides, scales, ...) / the skeleton are GIVEN (a
+    long-lived model is reused: see gen_session); returns None when no in-domain scene is found.
+    long_edges=True: one edge of every animal is long: 0.15 .. 0.45 x the larger side of the
+    network input (the distance penalty of score_paf_lines is active above 0.25 x)."""
+    for _attempt in range(attempts or (400 if crowded else 200)):
+        sc = dict(fixed) if fixed is not None else gen_config(rng)
         if crowded:
             sc["cs"] = rng.choice([1, 2])
             sc["max_stride"] = max(sc["max_stride"], sc["cs"], sc["ps"])
@@ -273,16 +303,24 @@ def gen_scene(rng, thorough=False, crowded=False):
         border = (3 if sc["refinement"] == "integral" else 1) * cs      # keep clear of the grid border
         vw, vh = float(g["valid_w"]), float(g["valid_h"])
         if min(vw, vh) < 12 * cs or max(g["Hin"], g["Win"]) > 336:
+            if fixed is not None:
+                return None
             continue
-        n_nodes = rng.randint(5, 6) if crowded else rng.randint(2, 6)
-        edges = random_tree(rng, n_nodes)
-        sc["n_nodes"], sc["edges"] = n_nodes, edges
+        if skeleton is not None:
+            n_nodes, edges = skeleton
+        else:
+            n_nodes = rng.randint(5, 6) if crowded else rng.randint(2, 6)
+            edges = random_tree(rng, n_nodes)
+        sc["n_nodes"], sc["edges"] = n_nodes, list(edges)
         batch = rng.choice([1, 1, 2, 3])
         n_want = rng.randint(4, 5) if crowded else rng.randint(1, 5)
         frames = []
         ok = True
         for _b in range(batch):
-            animals = place_animals(rng, sc, g, n_want, border, vw, vh, crowded=crowded)
+            if long_edges:
+                animals = place_long(rng, sc, g, border, vw, vh)
+            else:
+                animals = place_animals(rng, sc, g, n_want, border, vw, vh, crowded=crowded)
             if not animals:
                 ok = False
                 break
@@ -293,8 +331,69 @@ def gen_scene(rng, thorough=False, crowded=False):
         if not ok:
             continue
         sc["frames"] = frames
+        if long_edges:
+            sc["long_edges"] = True
         return sc
+    if fixed is not None:
+        return None
     raise RuntimeError("scene generator: no in-domain scene found in 200 attempts")
+
+
+def settle(rng, sc, g, P, ox, oy, p_miss_choices, keep=()):
+    """Sub-pixel nudges of the pose P (network-input px, shifted by (ox, oy)) until general position
+    holds exactly; random missing nodes (never the nodes in `keep`).  Returns the animal or None."""
+    cs, f = sc["cs"], g["f"]
+    for _t in range(20):
+        dx, dy = rng.uniform(-0.5, 0.5) * cs * (_t > 0), rng.uniform(-0.5, 0.5) * cs * (_t > 0)
+        cand = [(snap((p[0] + ox + dx) / float(f)), snap((p[1] + oy + dy) / float(f))) for p in P]
+        p_miss = rng.choice(p_miss_choices)
+        cand = [None if (rng.random() < p_miss and j not in keep) else p for j, p in enumerate(cand)]
+        vis_pts = [p for p in cand if p is not None]
+        if not vis_pts:
+            continue
+        if general_position(sc, g, cand) and not any(sel_band(sc, g, p) for p in vis_pts) \
+                and not sel_coincident(sc, g, cand) and not sel_paf_dropped(sc, g, cand) \
+                and not sel_long_edge(sc, g, cand):
+            return cand
+    return None
+
+
+def place_long(rng, sc, g, border, vw, vh):
+    """One animal (sometimes a second one: a copy shifted sideways by 24-40 px) with ONE LONG EDGE of
+    0.15 .. 0.45 x the larger side of the network input; both ends of the long edge visible."""
+    cs = sc["cs"]
+    n_nodes, edges = sc["n_nodes"], sc["edges"]
+    S = max(g["Hin"], g["Win"])
+    x0, y0 = border + 1.0, border + 1.0
+    x1 = min(vw - 1, (g["wc"] - 1) * cs) - border - 1.0
+    y1 = min(vh - 1, (g["hc"] - 1) * cs) - border - 1.0
+    for _try in range(40):
+        k = rng.randrange(len(edges))
+        lo = max(0.15 * S, 2.3 * cs)
+        P = gen_pose(rng, edges, n_nodes, cs, 2.3, rng.choice([3.0, 4.0, 6.0]), long=(k, lo, max(lo, 0.45 * S)))
+        poses = [P]
+        if rng.random() < 0.35:                      # a second animal: the same pose, shifted across the long edge
+            u, v = edges[k]
+            ex, ey = P[v][0] - P[u][0], P[v][1] - P[u][1]
+            ln = math.hypot(ex, ey)
+            d = rng.uniform(24.0, 40.0) * rng.choice([-1, 1])
+            poses.append([(p[0] - ey / ln * d, p[1] + ex / ln * d) for p in P])
+        xs = [p[0] for Q in poses for p in Q]
+        ys = [p[1] for Q in poses for p in Q]
+        bw, bh = max(xs) - min(xs), max(ys) - min(ys)
+        if bw > x1 - x0 or bh > y1 - y0:
+            continue
+        ox = rng.uniform(x0, x1 - bw) - min(xs)
+        oy = rng.uniform(y0, y1 - bh) - min(ys)
+        animals = [settle(rng, sc, g, Q, ox, oy, [0.0, 0.0, 0.15], keep=edges[k]) for Q in poses]
+        if any(a is None for a in animals):
+            continue
+        if len(animals) > 1:                         # two long animals: only when the reference separates them
+            trial = dict(sc, frames=[animals])
+            if not ideal_separation(trial)[0]:
+                animals = animals[:1]
+        return animals
+    return None
 
 
 def place_animals(rng, sc, g, n_want, border, vw, vh, crowded=False):
@@ -332,25 +431,74 @@ def place_animals(rng, sc, g, n_want, border, vw, vh, crowded=False):
             cx = x0 + i * max(sx, 0.0) + rng.uniform(-jit, jit)
             cy = y0 + j * max(sy, 0.0) + rng.uniform(-jit, jit)
             ox, oy = cx - (bx[0] + bx[2]) / 2, cy - (bx[1] + bx[3]) / 2
-            animal = None
-            for _t in range(20):                       # sub-pixel nudges until general position holds exactly
-                dx, dy = rng.uniform(-0.5, 0.5) * cs * (_t > 0), rng.uniform(-0.5, 0.5) * cs * (_t > 0)
-                cand = [(snap((p[0] + ox + dx) / float(f)), snap((p[1] + oy + dy) / float(f))) for p in P]
-                p_miss = rng.choice([0.0, 0.1]) if crowded else rng.choice([0.0, 0.15, 0.3, 0.5])
-                cand = [None if rng.random() < p_miss else p for p in cand]
-                vis_pts = [p for p in cand if p is not None]
-                if not vis_pts:
-                    continue
-                if general_position(sc, g, cand) and not any(sel_band(sc, g, p) for p in vis_pts) \
-                        and not sel_coincident(sc, g, cand) and not sel_paf_dropped(sc, g, cand):
-                    animal = cand
-                    break
+            animal = settle(rng, sc, g, P, ox, oy, [0.0, 0.1] if crowded else [0.0, 0.15, 0.3, 0.5])
             if animal is None:
                 break
             animals.append(animal)
         if len(animals) == k and k >= 1 and (not crowded or k >= 3):
             return animals
     return None
+
+
+# ------------------------------------------------------------------ sessions: long-lived models, shared grid shapes
+# (image-size factor k, PAF stride) combinations with the same k / stride have PAF grids of the SAME SHAPE;
+# a session uses the strides of one chain and the size factors 1, 2, 4
+CHAINS = [[(1, 1), (2, 2), (4, 4)], [(1, 2), (2, 4)], [(2, 1), (4, 2)]]
+
+
+def gen_session(rng):
+    """One skeleton, one base size B = (bh, bw), 2-3 MODELS (one per PAF stride; own cms stride, input
+    scale, refinement, constructor) and every model is shown every image size B * k of the session.
+    Returns blocks of jobs (scene, from_config): the jobs of a block are run CONSECUTIVELY and their
+    PAF grids have the same shape but different (size, stride); the blocks of all sessions are shuffled
+    among the other scenes of the run.  Over a run every model therefore sees several image sizes in a
+    random order (small-then-large included), scenes of the largest size have a long edge (longer than
+    the larger side of the smallest size, i.e. the distance penalty of the current size matters)."""
+    for _attempt in range(50):
+        n_nodes = rng.randint(2, 4)
+        skeleton = (n_nodes, random_tree(rng, n_nodes))
+        chain = rng.choice(CHAINS)
+        ks, pss = [1, 2, 4], sorted({p_ for _, p_ in chain})      # every model sees a 4x range of sizes
+        bh, bw = 8 * rng.randint(6, 10), 8 * rng.randint(6, 10)
+        models = {}
+        for ps in pss:
+            models[ps] = {"cs": ps if rng.random() < 0.5 else rng.choice([1, 2, 4]), "ps": ps,
+                          "scale": rng.choice([F(1), F(1), F(1, 2)]), "refinement": rng.choice([None, "integral"]),
+                          "from_config": rng.random() < 0.5}
+        diag = {}
+        for k in ks:
+            for ps in pss:
+                diag.setdefault(F(k, ps), []).append((k, ps))
+        blocks = []
+        for r in sorted(diag):
+            calls = diag[r]
+            rng.shuffle(calls)
+            block = []
+            for k, ps in calls:
+                m = models[ps]
+                Hin, Win = bh * k, bw * k
+                eff = rng.choice([F(1, 2), F(2)]) if rng.random() < 0.25 else F(1)
+                if Hin / (m["scale"] * eff) > 640 or Win / (m["scale"] * eff) > 640:
+                    eff = F(1)
+                H, W = int(Hin / (m["scale"] * eff)), int(Win / (m["scale"] * eff))
+                fixed = {"H": H, "W": W, "max_h": int(H * eff) if eff != 1 else None,
+                         "max_w": int(W * eff) if eff != 1 else None, "eff": eff, "scale": m["scale"],
+                         "cs": m["cs"], "ps": ps, "max_stride": rng.choice([max(m["cs"], ps), 8]),
+                         "refinement": m["refinement"], "sigma_cms": rng.choice([F(3, 2), F(5, 2), F(5)]),
+                         "sigma_paf": F(50) if m["cs"] + ps >= 5 else rng.choice([F(15), F(50)]),
+                         "registration": "target", "n_points": N_POINTS}
+                long = (k == max(ks) or rng.random() < 0.3) and rng.random() < 0.85
+                sc = gen_scene(rng, fixed=fixed, skeleton=skeleton, long_edges=long, attempts=30)
+                if sc is None and long:
+                    sc = gen_scene(rng, fixed=fixed, skeleton=skeleton, attempts=30)
+                if sc is not None:
+                    block.append((sc, m["from_config"]))
+            if block:
+                blocks.append(block)
+        if sum(len(b) for b in blocks) >= 3:
+            rng.shuffle(blocks)
+            return blocks
+    raise RuntimeError("session generator: no session found in 50 attempts")
 
 
 # ------------------------------------------------------------------ running the implementation
@@ -373,21 +521,12 @@ def truth_tensor(torch, animals):
                         dtype=torch.float32)
 
 
-def run_scene(im: Impl, sc, from_config=False):
-    """Real preprocessing + real BottomUpInferenceModel.forward + real PAFScorer,
-    stub network.  Returns a dict of plain lists (or {"raises": kind})."""
+def build_model(im: Impl, sc, from_config=False):
+    """A real BottomUpInferenceModel + real PAFScorer around a stub network for the configuration
+    FAMILY of sc (skeleton, strides, refinement, input scale, n_points); the frame is set later."""
     torch = im.torch
-    imgs, effs = [], []
-    for _ in sc["frames"]:
-        img = stub.ramp_image(torch, sc["H"], sc["W"])
-        img, eff = stub.preprocess(torch, im.rz, img, sc["max_h"], sc["max_w"], float(sc["scale"]), sc["max_stride"])
-        imgs.append(img)
-        effs.append(eff)
-    rec = []
-    net = stub.make_stub(torch, im.cm, im.em, truths=[truth_tensor(torch, a) for a in sc["frames"]],
-                         n_nodes=sc["n_nodes"], edge_inds=sc["edges"], cms_stride=sc["cs"], paf_stride=sc["ps"],
-                         sigma_cms=float(sc["sigma_cms"]), sigma_paf=float(sc["sigma_paf"]),
-                         registration=sc["registration"], record=rec)
+    net = stub.make_stub(torch, im.cm, im.em, truths=[], n_nodes=sc["n_nodes"], edge_inds=sc["edges"],
+                         cms_stride=sc["cs"], paf_stride=sc["ps"], sigma_cms=1.0, sigma_paf=1.0)
     names = [f"n{i}" for i in range(sc["n_nodes"])]
     edges_named = [(names[u], names[v]) for u, v in sc["edges"]]
     if from_config:
@@ -400,6 +539,55 @@ def run_scene(im: Impl, sc, from_config=False):
     model = im.BottomUp(torch_model=net, paf_scorer=scorer, cms_output_stride=sc["cs"],
                         pafs_output_stride=sc["ps"], peak_threshold=PEAK_THR, refinement=sc["refinement"],
                         integral_patch_size=PATCH, return_paf_graph=True, input_scale=float(sc["scale"]))
+    return model, net
+
+
+class ModelPool:
+    """LONG-LIVED inference models, one per configuration family, reused for every scene of the
+    family whatever its image size (a PAFScorer / BottomUpInferenceModel is built once per run in
+    the repo's predictors).  Keeps the raw outputs it returned, to re-compare them at the end."""
+
+    def __init__(self, im: Impl):
+        self.im, self.models, self.calls, self.held = im, {}, {}, []
+
+    @staticmethod
+    def key(sc, from_config):
+        return (sc["n_nodes"], tuple(tuple(e) for e in sc["edges"]), sc["cs"], sc["ps"], sc["refinement"],
+                str(sc["scale"]), sc["n_points"], bool(from_config))
+
+    def get(self, sc, from_config):
+        k = self.key(sc, from_config)
+        if k not in self.models:
+            self.models[k] = build_model(self.im, sc, from_config)
+            self.calls[k] = 0
+        self.calls[k] += 1
+        return self.models[k]
+
+
+OUT_KEYS = (("instances", "pred_instance_peaks"), ("peak_values", "pred_peak_values"),
+            ("instance_scores", "instance_scores"), ("peaks", "peaks"), ("peak_channel_inds", "peak_channel_inds"),
+            ("edge_inds", "edge_inds"), ("edge_peak_inds", "edge_peak_inds"), ("line_scores", "line_scores"))
+
+
+def extract(out, B):
+    return {k: [out[ok][b].tolist() for b in range(B)] for k, ok in OUT_KEYS}
+
+
+def run_scene(im: Impl, sc, from_config=False, pool: ModelPool = None):
+    """Real preprocessing + real BottomUpInferenceModel.forward + real PAFScorer,
+    stub network.  Returns a dict of plain lists (or {"raises": kind}).
+    pool=None: a model built for this scene; else the long-lived model of the scene's family."""
+    torch = im.torch
+    imgs, effs = [], []
+    for _ in sc["frames"]:
+        img = stub.ramp_image(torch, sc["H"], sc["W"])
+        img, eff = stub.preprocess(torch, im.rz, img, sc["max_h"], sc["max_w"], float(sc["scale"]), sc["max_stride"])
+        imgs.append(img)
+        effs.append(eff)
+    rec = []
+    model, net = pool.get(sc, from_config) if pool is not None else build_model(im, sc, from_config)
+    net.set_frame(truths=[truth_tensor(torch, a) for a in sc["frames"]], sigma_cms=float(sc["sigma_cms"]),
+                  sigma_paf=float(sc["sigma_paf"]), registration=sc["registration"], record=rec)
     inputs = {"image": torch.cat(imgs, 0).unsqueeze(1), "eff_scale": torch.tensor(effs, dtype=torch.float32)}
     try:
         with torch.no_grad():
@@ -407,16 +595,35 @@ def run_scene(im: Impl, sc, from_config=False):
     except Exception as e:       # compared by kind
         return {"raises": type(e).__name__, "msg": str(e)[:200], "effs": [float(e_) for e_ in effs]}
     B = len(sc["frames"])
-    res = {"effs": [float(e) for e in effs], "fits": [{k: r[k] for k in ("ax", "bx", "ay", "by", "H", "W")} for r in rec],
-           "instances": [out["pred_instance_peaks"][b].tolist() for b in range(B)],
-           "peak_values": [out["pred_peak_values"][b].tolist() for b in range(B)],
-           "instance_scores": [out["instance_scores"][b].tolist() for b in range(B)],
-           "peaks": [out["peaks"][b].tolist() for b in range(B)],
-           "peak_channel_inds": [out["peak_channel_inds"][b].tolist() for b in range(B)],
-           "edge_inds": [out["edge_inds"][b].tolist() for b in range(B)],
-           "edge_peak_inds": [out["edge_peak_inds"][b].tolist() for b in range(B)],
-           "line_scores": [out["line_scores"][b].tolist() for b in range(B)]}
+    res = {"effs": [float(e) for e in effs], "fits": [{k: r[k] for k in ("ax", "bx", "ay", "by", "H", "W")} for r in rec]}
+    res.update(extract(out, B))
+    if pool is not None:
+        pool.held.append((out, B, {k: res[k] for k, _ in OUT_KEYS}))
     return res
+
+
+def same_values(a, b, tol=1e-6):
+    """Nested lists of numbers equal (NaN == NaN, floats within tol)."""
+    if isinstance(a, (list, tuple)) or isinstance(b, (list, tuple)):
+        return isinstance(a, (list, tuple)) and isinstance(b, (list, tuple)) and len(a) == len(b) and \
+            all(same_values(x, y, tol) for x, y in zip(a, b))
+    if a is None or b is None:
+        return a is b
+    if isnan(a) or isnan(b):
+        return isnan(a) and isnan(b)
+    return abs(a - b) <= tol * (1 + abs(a))
+
+
+def same_result(r1, r2):
+    """Two results of the same scene: None or the first key that differs."""
+    if ("raises" in r1) != ("raises" in r2):
+        return f"one run raised ({r1.get('raises')} / {r2.get('raises')})"
+    if "raises" in r1:
+        return None if r1["raises"] == r2["raises"] else f"raised {r1['raises']} / {r2['raises']}"
+    for k, _ in OUT_KEYS:
+        if not same_values(r1[k], r2[k]):
+            return k
+    return None
 
 
 # ------------------------------------------------------------------ the property, executable
@@ -626,7 +833,7 @@ def ideal_line_score(sc, g, animals, k, src, dst):
                 vals.append((px * vx + py * vy) / ln)
         lo += min(vals)
         hi += max(vals)
-    max_len = 0.25 * max(g["hp"], g["wp"], 2 * len(sc["edges"])) * ps
+    max_len = float(max_edge_length(sc, g))         # of THIS scene's PAF tensor
     pen = min(0.0, max_len / ln - 1.0)
     return (lo / n + pen, hi / n + pen)
 
@@ -720,7 +927,7 @@ def geo_premise(sc, res):
     wfar = math.exp(-(R2 * R2) / (2 * sig * sig))
     out = {"structural": True, "holds": True, "bound_bad": [], "edges": 0, "edges_hold": 0, "edges_structural": 0,
            "via_margin": 0, "via_saturated": 0}
-    max_len = 0.25 * max(g["hp"], g["wp"], 2 * len(sc["edges"])) * ps
+    max_len = float(max_edge_length(sc, g))
     for b, animals in enumerate(sc["frames"]):
         peaks, chans = res["peaks"][b], res["peak_channel_inds"][b]
         ids = identify_peaks(sc, g, animals, peaks, chans)
@@ -956,11 +1163,16 @@ def layout_check(im: Impl, rng, model_pairs, h, w, E):
     return None
 
 
-def writer_check(im: Impl, rng):
-    """Real generate_pafs (flattened) against the independent reference ideal_paf."""
+def writer_check(im: Impl, rng, force=None):
+    """Real generate_pafs (flattened) against the independent reference ideal_paf.
+    force = (H, W, s): that image size and stride (used to follow a call with another one whose grid
+    has the SAME SHAPE but another stride).  Returns (diff or None, cells checked, (H, W, s))."""
     torch = im.torch
-    s = rng.choice([1, 2, 4])
-    H, W = s * rng.randint(3, 6), s * rng.randint(3, 7)
+    if force is None:
+        s = rng.choice([1, 2, 4])
+        H, W = s * rng.randint(3, 6), s * rng.randint(3, 7)
+    else:
+        H, W, s = force
     n_nodes = rng.randint(2, 4)
     edges = random_tree(rng, n_nodes)
     sc = {"edges": edges, "ps": s, "sigma_paf": rng.choice([F(3), F(15)]), "registration": "target"}
@@ -971,7 +1183,7 @@ def writer_check(im: Impl, rng):
     et = torch.tensor(edges, dtype=torch.int32).reshape(-1, 2)
     out = im.em.generate_pafs(pts.clone(), (H, W), float(sc["sigma_paf"]), s, et, True)
     if tuple(out.shape) != (2 * len(edges), g["hp"], g["wp"]):
-        return f"generate_pafs shape {tuple(out.shape)}", 0
+        return f"generate_pafs shape {tuple(out.shape)}", 0, (H, W, s)
     o = out.tolist()
     n = 0
     for k in range(len(edges)):
@@ -980,10 +1192,164 @@ def writer_check(im: Impl, rng):
                 vx, vy = ideal_paf(sc, g, animals, k, j * s, i * s)
                 n += 1
                 if abs(o[2 * k][i][j] - vx) > 2e-5 or abs(o[2 * k + 1][i][j] - vy) > 2e-5:
-                    return (f"generate_pafs channel {2 * k}/{2 * k + 1} cell {(i, j)} = "
+                    return (f"generate_pafs (image {H}x{W}, stride {s}) channel {2 * k}/{2 * k + 1} cell {(i, j)} = "
                             f"{(o[2 * k][i][j], o[2 * k + 1][i][j])}, edge {k} at (x={j * s}, y={i * s}) is {(vx, vy)}; "
-                            f"edges {edges} animals {[[None if p is None else (float(p[0]), float(p[1])) for p in a] for a in animals]}"), n
-    return None, n
+                            f"edges {edges} animals {[[None if p is None else (float(p[0]), float(p[1])) for p in a] for a in animals]}"), n, (H, W, s)
+    return None, n, (H, W, s)
+
+
+def same_shape_other_stride(rng, H, W, s):
+    """An (image size, stride) whose sampling grid has the shape of (H, W, s)'s but another stride."""
+    hp, wp = -(-H // s), -(-W // s)
+    s2 = rng.choice([x for x in (1, 2, 4, 8) if x != s])
+    return hp * s2, wp * s2, s2
+
+
+def grid_check(im: Impl, cases, model):
+    """make_grid_vectors (the sampling positions of the ideal maps of ONE call) against Coq grid_vector."""
+    from sleap_nn.data.utils import make_grid_vectors
+    for (H, W, st), (mx, my) in zip(cases, model):
+        xv, yv = make_grid_vectors(H, W, st)
+        for nm, got, mod in (("x", xv.tolist(), mx), ("y", yv.tolist(), my)):
+            want = [float(jfrac(q)) for q in mod]
+            if got != want:
+                return f"make_grid_vectors({H}, {W}, {st}) {nm} = {got[:6]}..., model {want[:6]}... (lengths {len(got)}/{len(want)})"
+    return None
+
+
+# ------------------------------------------------------------------ unit correspondence: ONE scorer object, many calls
+SPREAMBLE = ("From SV Require Import C03.BottomUp C03.Scorer.\nFrom Coq Require Import List ZArith QArith.\n"
+             "Import ListNotations.\nOpen Scope Q_scope.\n")
+STREAM_TAUS = [F(-1, 2), F(0), F(1, 4), F(1, 2), F(9, 10)]
+
+
+def gen_scorer_stream(rng):
+    """A PAFScorer configuration and a SEQUENCE of calls on PAF tensors of different sizes (random
+    order; half of the streams start with their smallest tensor): samples with 1-2 peaks per node."""
+    E = rng.randint(1, 3)
+    n_nodes = E + 1
+    edges = random_tree(rng, n_nodes)
+    ps = rng.choice([1, 2, 4, 8])
+    cfg = {"E": E, "n_nodes": n_nodes, "edges": edges, "ps": ps,
+           "ratio": rng.choice([F(1, 4), F(1, 4), F(1, 2), F(1, 8)]), "wt": rng.choice([F(1), F(1), F(1, 2), F(2)]),
+           "n": rng.choice([1, 2, 3, 5, 10]), "from_config": rng.random() < 0.5}
+    dims = [(rng.randint(1, 6), rng.randint(1, 7)) for _ in range(rng.randint(5, 8))]
+    if rng.random() < 0.5:
+        dims.sort(key=lambda d: max(d))
+        dims = dims[:1] + rng.sample(dims[1:], len(dims) - 1)
+    calls = []
+    for h, w in dims:
+        samples = []
+        for _b in range(rng.choice([1, 1, 2])):
+            ext_x, ext_y = (w - 1) * ps, (h - 1) * ps
+            kind = rng.random()
+            if kind < 0.3:
+                pt = lambda: (F(rng.randint(-ps, ext_x + ps)), F(rng.randint(-ps, ext_y + ps)))
+            else:
+                pt = lambda: (dy(rng, -ps / 2, ext_x + ps / 2, 16), dy(rng, -ps / 2, ext_y + ps / 2, 16))
+            peaks, chans = [], []
+            for node in range(n_nodes):
+                for _q in range(rng.choice([1, 1, 2])):
+                    peaks.append(pt())
+                    chans.append(node)
+            order = list(range(len(peaks)))
+            rng.shuffle(order)
+            paf = [[[F(rng.randint(-8, 8), 8) for _ in range(2 * E)] for _ in range(w)] for _ in range(h)]
+            samples.append({"paf": paf, "peaks": [peaks[i] for i in order], "chans": [chans[i] for i in order]})
+        calls.append({"h": h, "w": w, "samples": samples})
+    cfg["calls"] = calls
+    return cfg
+
+
+def scorer_stream_impl(im: Impl, st):
+    """The calls of the stream on ONE PAFScorer object (PAFScorer.score_paf_lines, the wrapper the
+    inference model uses).  Returns per call, per sample: (edge_inds, edge_peak_inds, scores)."""
+    torch, pg = im.torch, im.pg
+    names = [f"n{i}" for i in range(st["n_nodes"])]
+    edges_named = [(names[u], names[v]) for u, v in st["edges"]]
+    kw = dict(max_edge_length_ratio=float(st["ratio"]), dist_penalty_weight=float(st["wt"]), n_points=st["n"])
+    if st["from_config"]:
+        from omegaconf import OmegaConf
+        cfg = OmegaConf.create({"confmaps": {"part_names": names},
+                                "pafs": {"edges": [list(e) for e in edges_named], "output_stride": st["ps"]}})
+        scorer = pg.PAFScorer.from_config(cfg, **kw)
+    else:
+        scorer = pg.PAFScorer(part_names=names, edges=edges_named, pafs_stride=st["ps"], **kw)
+    out = []
+    for c in st["calls"]:
+        pafs = torch.tensor([[[[float(x) for x in cell] for cell in row] for row in smp["paf"]] for smp in c["samples"]],
+                            dtype=torch.float32)
+        peaks = [torch.tensor([[float(x), float(y)] for x, y in smp["peaks"]], dtype=torch.float32) for smp in c["samples"]]
+        chans = [torch.tensor(smp["chans"], dtype=torch.int32) for smp in c["samples"]]
+        ei, epi, ls = scorer.score_paf_lines(pafs, peaks, chans)
+        out.append([(ei[b].tolist(), epi[b].tolist(), ls[b].tolist()) for b in range(len(c["samples"]))])
+    return out
+
+
+def scorer_stream_term(st, impl):
+    """CCalls term: the candidates are listed in the order the implementation returned them."""
+    calls = []
+    for c, per_sample in zip(st["calls"], impl):
+        for smp, (ei, epi, _ls) in zip(c["samples"], per_sample):
+            paf = core.clist(smp["paf"], lambda r: core.clist(r, lambda cell: core.clist(cell, cqq)))
+            cands = core.clist(list(zip(ei, epi)), lambda t: "(%s, %s, %s, %s, %s)" % (
+                cqq(smp["peaks"][t[1][0]][0]), cqq(smp["peaks"][t[1][0]][1]),
+                cqq(smp["peaks"][t[1][1]][0]), cqq(smp["peaks"][t[1][1]][1]), core.cz(t[0])))
+            calls.append(f"{{| c_paf := {paf}; c_cands := {cands} |}}")
+    scorer = f"{{| s_ps := {core.cz(st['ps'])}; s_ratio := {cqq(st['ratio'])}; s_wt := {cqq(st['wt'])}; s_n := {st['n']}%nat |}}"
+    return f"CCalls {scorer} {core.clist(STREAM_TAUS, cqq)} {core.clist(calls)}"
+
+
+def line_on_boundary(src, dst, n, ps):
+    for i in range(n):
+        t = F(i, n - 1) if n > 1 else F(0)
+        for a, b in ((src[0], dst[0]), (src[1], dst[1])):
+            q = (a + (b - a) * t) / ps
+            if q - math.floor(q) == F(1, 2):
+                return True
+    return False
+
+
+def scorer_stream_compare(st, impl, model):
+    """model: per (call, sample) [M, [[S, len2, [bools]], ...]] with M = the max edge length Coq computes
+    from THAT call's tensor.  Returns (diff or None, #candidates compared, #penalised candidates)."""
+    it = iter(model)
+    n_c = n_pen = 0
+    for ci, (c, per_sample) in enumerate(zip(st["calls"], impl)):
+        for b, (smp, (ei, epi, ls)) in enumerate(zip(c["samples"], per_sample)):
+            M, rows = next(it)
+            M = jfrac(M)
+            want_M = st["ratio"] * max(c["h"], c["w"], 2 * st["E"]) * st["ps"]
+            if M != want_M:
+                return f"call {ci}: Coq max_edge_length {M}, harness {want_M}", n_c, n_pen
+            expect = sorted((k, i, j) for k, (u, v) in enumerate(st["edges"])
+                            for i, ci_ in enumerate(smp["chans"]) if ci_ == u
+                            for j, cj in enumerate(smp["chans"]) if cj == v)
+            if sorted((k, i, j) for k, (i, j) in zip(ei, epi)) != expect:
+                return f"call {ci} sample {b}: candidates {list(zip(ei, epi))}, expected {expect}", n_c, n_pen
+            for (k, (i, j), got, (S, len2, mb)) in zip(ei, epi, ls, rows):
+                S, len2 = jfrac(S), jfrac(len2)
+                src, dst = smp["peaks"][i], smp["peaks"][j]
+                where = (f"call {ci} (tensor {c['h']}x{c['w']}x{2 * st['E']}, stride {st['ps']}, max length {float(M)}; "
+                         f"earlier calls {[(x['h'], x['w']) for x in st['calls'][:ci]]}) sample {b} candidate "
+                         f"{tuple(map(float, src))} -> {tuple(map(float, dst))} edge {k}")
+                if len2 == 0:
+                    if not isnan(got) or any(x is not None for x in mb):
+                        return f"{where}: zero-length line, impl {got}, model {mb}", n_c, n_pen
+                    continue
+                if line_on_boundary(src, dst, st["n"], st["ps"]):
+                    continue
+                L = math.sqrt(float(len2))
+                pen = float(st["wt"]) * min(0.0, float(M) / L - 1.0)
+                want = float(S) / (st["n"] * L) + pen
+                n_c += 1
+                n_pen += pen < 0
+                if not abs(want - got) <= 3e-5 + 3e-5 * abs(want):
+                    return f"{where}: impl score {got}, model {want} (penalty {pen})", n_c, n_pen
+                for tau, bb in zip(STREAM_TAUS, mb):
+                    if abs(want - float(tau)) > 1e-4 and bb != (got >= float(tau)):
+                        return f"{where}: score >= {tau}: model {bb}, impl score {got}", n_c, n_pen
+    return None, n_c, n_pen
 
 
 # ------------------------------------------------------------------ scenes <-> JSON
@@ -1018,6 +1384,10 @@ def scene_selectors(sc):
         for a in fr:
             if any(sel_band(sc, g, p) for p in a if visible(p)) or sel_paf_dropped(sc, g, a):
                 return "c03_border_band"
+    for fr in sc["frames"]:
+        for a in fr:
+            if sel_long_edge(sc, g, a):
+                return "c03_long_edge"
     return None
 
 
@@ -1180,28 +1550,83 @@ def check(run: core.Run) -> int:
     l_bad = [x for x in l_bad if x]
     run.obligation("correspondence: writer_offset == reader_offset == torch reshape/permute layout", not l_bad,
                    "; ".join(l_bad[:2]))
-    w_bad, w_cells = [], 0
+    w_bad, w_cells, w_geoms = [], 0, []
     for _ in range(60 if thorough else 12):
-        bad, n = writer_check(im, rng)
-        w_cells += n
-        if bad:
-            w_bad.append(bad)
+        bad, n, geom = writer_check(im, rng)
+        bad2, n2, geom2 = writer_check(im, rng, force=same_shape_other_stride(rng, *geom))   # same grid SHAPE, other stride
+        w_cells += n + n2
+        w_geoms += [geom, geom2]
+        w_bad += [x for x in (bad, bad2) if x]
     run.obligation("generate_pafs writes edge k's x/y component of cell (i,j)=(y/s,x/s) into channel 2k/2k+1 "
-                   "(independent reference)", not w_bad, "; ".join(w_bad[:1]))
+                   "(independent reference); every call is followed by one whose grid has the same shape but another "
+                   "stride", not w_bad, "; ".join(w_bad[:1]))
     if w_bad:
         run.proof_broken.append("writer layout: " + w_bad[0][:600])
+    # the sampling grid of ONE call: make_grid_vectors == Coq grid_vector (size and stride of that call)
+    gcases = w_geoms[:16] + [(128, 128, 2), (256, 256, 4), (64, 48, 1), (256, 192, 4)]
+    gmodel = core.coq_eval_sharded(SPREAMBLE, [f"CGrid {core.cz(v)} {core.cz(st_)}" for H_, W_, st_ in gcases for v in (W_, H_)],
+                                   "srun", "rres", shard=200, jobs=2)
+    g_bad = grid_check(im, gcases, [(gmodel[2 * i], gmodel[2 * i + 1]) for i in range(len(gcases))])
+    run.obligation("correspondence: grid_vector (Coq) == make_grid_vectors (/repo): sample j of a call's grid is j * stride "
+                   "of THAT call", not g_bad, str(g_bad))
+    if g_bad:
+        run.proof_broken.append("sampling grid: " + g_bad[:500])
+    # ONE PAFScorer object per stream, calls on tensors of different sizes: Coq score_calls (max length per call)
+    streams = [gen_scorer_stream(rng) for _ in range(60 if thorough else 14)]
+    s_impl, s_bad = [], []
+    for st in streams:
+        try:
+            s_impl.append(scorer_stream_impl(im, st))
+        except Exception as e:
+            s_impl.append(None)
+            s_bad.append(f"PAFScorer.score_paf_lines raised {type(e).__name__}: {e}")
+    ok_streams = [(st, si_) for st, si_ in zip(streams, s_impl) if si_ is not None]
+    s_model = core.coq_eval_sharded(SPREAMBLE, [scorer_stream_term(st, si_) for st, si_ in ok_streams], "srun", "rres",
+                                    shard=3, jobs=4)
+    n_stream_cands = n_stream_pen = n_stream_calls = 0
+    for (st, si_), m in zip(ok_streams, s_model):
+        run.case({"scorer_stream": {k: str(v) for k, v in st.items() if k != "calls"},
+                  "calls": [(c["h"], c["w"], len(c["samples"])) for c in st["calls"]],
+                  "first_peaks": str(st["calls"][0]["samples"][0]["peaks"])}, nontrivial=True)
+        n_stream_calls += len(st["calls"])
+        try:
+            diff, nc, npen = scorer_stream_compare(st, si_, m)
+        except Exception as e:
+            diff, nc, npen = f"stream cannot be compared ({type(e).__name__}: {e})", 0, 0
+        n_stream_cands += nc
+        n_stream_pen += npen
+        if diff:
+            s_bad.append(diff)
+    for d in s_bad[:3]:
+        run.log("scorer stream disagreement: " + d)
+    if s_bad:
+        run.proof_broken.append("correspondence long-lived PAFScorer (score_calls): " + s_bad[0][:700])
+    run.obligation("correspondence: score_calls (Coq: max_edge_length from the CURRENT call's tensor, nothing kept between "
+                   "calls) == one long-lived PAFScorer.score_paf_lines (/repo) over a sequence of tensors of different "
+                   "sizes, incl. small-then-large", not s_bad and n_stream_pen >= 20,
+                   f"{len(s_bad)} disagreements; {n_stream_cands} candidates, {n_stream_pen} penalised")
 
     # ---- 2. known findings / corpus ----------------------------------------------------------
     n_corpus = replay_corpus(run, im)
 
     # ---- 3. end-to-end scenes ----------------------------------------------------------------
-    n_sc = 8000 if thorough else 400
-    scenes = [gen_scene(rng, thorough, crowded=(i % 8 == 5)) for i in range(n_sc)]
+    # jobs = (scene, from_config, pooled).  Random scenes get a model of their own; the scenes of the
+    # SESSIONS go through long-lived models (ModelPool), in blocks (same grid shape, other stride)
+    # inserted at random places among the others: one process, interleaved sizes / strides / options.
+    n_rand = 8000 if thorough else 400
+    jobs = [(gen_scene(rng, thorough, crowded=(i % 8 == 5)), i % 2 == 1, False) for i in range(n_rand)]
+    blocks = [b for _ in range(150 if thorough else 14) for b in gen_session(rng)]
+    rng.shuffle(blocks)
+    for pos, blk in sorted(zip((rng.randrange(n_rand + 1) for _ in blocks), blocks), key=lambda t: -t[0]):
+        jobs[pos:pos] = [(sc, fc, True) for sc, fc in blk]
+    scenes = [j[0] for j in jobs]
+    n_sc = len(scenes)
+    pool = ModelPool(im)
     results, premises, seps, geos = [], [], [], []
     sterms, sindex, aterms, aindex = [], [], [], []
-    for si, sc in enumerate(scenes):
+    for si, (sc, fcfg, pooled) in enumerate(jobs):
         g = input_geometry(sc)
-        res = run_scene(im, sc, from_config=(si % 2 == 1))
+        res = run_scene(im, sc, from_config=fcfg, pool=pool if pooled else None)
         results.append(res)
         seps.append(ideal_separation(sc)[0])
         if "raises" in res:
@@ -1239,6 +1664,22 @@ def check(run: core.Run) -> int:
             d = f"frame {b}: output cannot be compared ({type(e).__name__}: {e})"
         if d and si not in scene_diff:
             scene_diff[si] = d
+    # F24 selector and the max edge length of every scene's OWN PAF tensor, decided in Coq
+    lterms, lwant = [], []
+    corpus_scenes = [scene_from_json(json.load(open(f))["scene"]) for f in sorted((core.CORPUS / "C03").glob("*.json"))]
+    for sc in corpus_scenes + [j[0] for j in jobs if j[2]] + scenes[:60]:
+        g = input_geometry(sc)
+        l2s = [edge_len2(g, a, u, v) for fr in sc["frames"] for a in fr for u, v in sc["edges"] if visible(a[u]) and visible(a[v])]
+        if not l2s:
+            continue
+        lterms.append(f"CLong {cqq(MAX_EDGE_RATIO)} {core.cz(g['hp'])} {core.cz(g['wp'])} {core.cz(2 * len(sc['edges']))} "
+                      f"{core.cz(sc['ps'])} {cqq(max(l2s))} {cqq(MIN_LINE)}")
+        lwant.append((max_edge_length(sc, g), any(sel_long_edge(sc, g, a) for fr in sc["frames"] for a in fr)))
+    lmodel = core.coq_eval_sharded(SPREAMBLE, lterms, "srun", "rres", shard=200, jobs=2)
+    l_bad = [(w, m) for w, m in zip(lwant, lmodel) if (jfrac(m[0]), bool(m[1])) != w]
+    run.obligation("selector c03_long_edge and max_edge_length of each scene's own PAF tensor: Coq (sel_long_edge, "
+                   "max_edge_length) == harness", not l_bad and any(w[1] for w in lwant) and not all(w[1] for w in lwant),
+                   f"{len(l_bad)} of {len(lterms)} differ: {l_bad[:1]}")
     a_bad = [(si, a1, m) for (si, a1), m in zip(aindex, amodel) if bool(m) != bool(a1)]
     run.obligation("premise (alternative 1) decided in Coq (table_alt1) == harness on the real score tables",
                    not a_bad, f"{len(a_bad)} tables differ")
@@ -1288,9 +1729,15 @@ def check(run: core.Run) -> int:
         if sdiff:
             score_bad += 1
         if bad and in_domain:
-            run.violation("failing-input", {"case": scene_json(sc), "oracle": bad, "correspondence": diffs,
-                                            "premise_measured": {k: v for k, v in det.items() if k != "tables"},
-                                            "ideal_separation": sep})
+            payload = {"case": scene_json(sc), "oracle": bad, "correspondence": diffs,
+                       "premise_measured": {k: v for k, v in det.items() if k != "tables"}, "ideal_separation": sep}
+            payload.update(job_history(jobs, si))
+            try:                         # control: the same scene on a model built for it, right now
+                ctl = oracle(sc, run_scene(im, sc, from_config=jobs[si][1]))
+                payload["control_fresh_model_now"] = ctl or "passes (the failure depends on what ran before)"
+            except Exception as e:
+                payload["control_fresh_model_now"] = f"{type(e).__name__}: {e}"
+            run.violation("failing-input", payload)
         elif bad:
             n_out += 1                   # not well-separated: neither the reference nor the real scores separate
         if diffs and not (bad and in_domain):
@@ -1304,6 +1751,46 @@ def check(run: core.Run) -> int:
                    reg_bad == 0, f"{reg_bad} scenes differ")
     run.obligation("lemma check: alternative 1 implies alternative 2 (unique optimum) on every real table",
                    lemma_contra == 0, f"{lemma_contra} scenes")
+    # ---- state across calls: a sample of the scenes once more at the end (same input => same output, whatever
+    # ran in between), and the outputs handed out earlier must not have changed since
+    pooled_idx = [i for i, j in enumerate(jobs) if j[2]]
+    again = sorted(rng.sample(pooled_idx, min(len(pooled_idx), max(8, len(pooled_idx) // 6)))
+                   + rng.sample([i for i, j in enumerate(jobs) if not j[2]], 8))
+    held_now = len(pool.held)
+    rep_bad = []
+    for si in again:
+        sc, fcfg, pooled = jobs[si]
+        r2 = run_scene(im, sc, from_config=fcfg, pool=pool if pooled else None)
+        d = same_result(results[si], r2)
+        if d:
+            rep_bad.append(f"scene {si} ({'long-lived' if pooled else 'own'} model): '{d}' differs between the first run and "
+                           f"the run at the end")
+            bad2 = oracle(sc, r2)
+            if bad2 and (seps[si] or premises[si][0]):
+                payload = {"case": scene_json(sc), "oracle": bad2, "repeat_at_end": True}
+                payload.update(job_history(jobs, si, upto=len(jobs)))
+                run.violation("failing-input", payload)
+    held_bad = sum(1 for out, B, snap in pool.held[:held_now]
+                   if any(not same_values(snap[k], v, 0.0) for k, v in extract(out, B).items()))
+    if rep_bad:
+        run.proof_broken.append("state across calls: " + rep_bad[0])
+    run.obligation("state across calls: scenes repeated at the end of the run (through the same long-lived models) give "
+                   "the same output as the first time", not rep_bad, "; ".join(rep_bad[:2]))
+    run.obligation("state across calls: outputs returned earlier by the long-lived models are unchanged at the end",
+                   held_bad == 0, f"{held_bad} of {held_now} outputs changed")
+    sizes_per_model = {}
+    for sc, fcfg, pooled in jobs:
+        if pooled:
+            sizes_per_model.setdefault(ModelPool.key(sc, fcfg), []).append(max(input_geometry(sc)["Hin"], input_geometry(sc)["Win"]))
+    small_then_large = sum(any(b >= 3 * a for i, a in enumerate(v) for b in v[i + 1:]) for v in sizes_per_model.values())
+    shape_pairs = sum(1 for a, b in zip(jobs, jobs[1:])
+                      if (input_geometry(a[0])["hp"], input_geometry(a[0])["wp"]) == (input_geometry(b[0])["hp"], input_geometry(b[0])["wp"])
+                      and a[0]["ps"] != b[0]["ps"])
+    n_long = sum(1 for sc in scenes if sc.get("long_edges"))
+    run.obligation("generator strength (state): long-lived models see a >= 3x larger image after a smaller one, consecutive "
+                   "scenes share a PAF grid shape at different strides, scenes with a penalised long edge exist",
+                   small_then_large >= 4 and shape_pairs >= 6 and n_long >= 10,
+                   f"{small_then_large} models small-then-large, {shape_pairs} consecutive same-shape pairs, {n_long} long-edge scenes")
     # ---- geometric premise (c03_reassembly_from_geometry): derived bounds vs real scores, premise => measured premise
     geo_bad, geo_scene_holds, geo_contra, big_frames = [], 0, [], 0
     geo_edges = geo_edges_struct = geo_edges_hold = geo_margin = geo_sat = 0
@@ -1350,6 +1837,12 @@ def check(run: core.Run) -> int:
                               "premise_holds": geo_edges_hold, "via_margin": geo_margin, "via_saturated_only": geo_sat,
                               "whole_scenes": geo_scene_holds, "R2_rule": "w(R2) = 1e-3", "eps": GEO_EPS},
         "frames_with_more_than_16_peaks": big_frames,
+        "state_across_calls": {"long_lived_models": len(pool.models), "scenes_through_long_lived_models": len(pooled_idx),
+                               "models_small_then_3x_larger": small_then_large, "consecutive_same_grid_shape_other_stride": shape_pairs,
+                               "long_edge_scenes": n_long, "scenes_repeated_at_end": len(again), "outputs_held": held_now,
+                               "scorer_streams": len(streams), "scorer_stream_calls": n_stream_calls,
+                               "scorer_stream_candidates": n_stream_cands, "scorer_stream_penalised": n_stream_pen,
+                               "grid_vector_cases": len(gcases)},
         "scenes_not_separated_by_reference": n_rej, "oracle_failures_outside_domain": n_out,
         "min_true_pair_score": tmin, "max_cross_pair_score": cmax, "worst_score_vs_reference": worst_score,
         "rule": "unit case = (PAF tensor, src, dst, edge, n_points, stride, max length, weight); scene = (skeleton, "
@@ -1385,13 +1878,31 @@ def check(run: core.Run) -> int:
         "checked against every real score"))
 
 
+def job_history(jobs, si, upto=None):
+    """What a replay needs to reproduce job si in the state it ran in: the earlier jobs on the same
+    long-lived model and the two jobs that ran immediately before it (module-level state)."""
+    sc, fcfg, pooled = jobs[si]
+    end = si if upto is None else upto
+    idx = set(range(max(0, end - 2), end)) - {si}
+    if pooled:
+        k = ModelPool.key(sc, fcfg)
+        idx |= {i for i in range(end) if i != si and jobs[i][2] and ModelPool.key(jobs[i][0], jobs[i][1]) == k}
+        if upto is not None:
+            idx.add(si)
+    return {"from_config": fcfg, "pooled": pooled,
+            "history": [{"scene": scene_json(jobs[i][0]), "from_config": jobs[i][1], "pooled": jobs[i][2]} for i in sorted(idx)]}
+
+
 def replay(run: core.Run, path: str) -> int:
     im = Impl()
     detect_paf_variants()
     rep = json.load(open(path))
     sc = scene_from_json(rep["case"] if "case" in rep else rep["scene"])
-    res = run_scene(im, sc)
+    pool = ModelPool(im)
+    for h in rep.get("history", []):             # rebuild the state: same long-lived models, same order
+        run_scene(im, scene_from_json(h["scene"]), h.get("from_config", False), pool if h.get("pooled") else None)
+    res = run_scene(im, sc, rep.get("from_config", False), pool if rep.get("pooled") else None)
     bad = oracle(sc, res)
-    print(json.dumps({"oracle": bad, "selector": scene_selectors(sc),
+    print(json.dumps({"oracle": bad, "selector": scene_selectors(sc), "history_replayed": len(rep.get("history", [])),
                       "instances": res.get("instances"), "raises": res.get("raises")}, default=str)[:3000])
     return 1 if bad else 0
